@@ -30,7 +30,7 @@ m = {
                  'kind_free_text': 'vp-extract (syn) pulls the real function bodies, contracts/*.vrs injects requires/ensures/invariants, Verus discharges; Kani for macro-generated code and bounded leaf validation'}],
     'checks': checks,
     'not_applicable': [{'property_id': p, 'reason': na[p]} for p in all_ids if p not in props],
-    'notes': 'exit 2 = undecided (lost anchor / unsupported construct / tool limit): never an alarm. See DESIGN.md.',
+    'notes': 'exit 2 = undecided (lost anchor / unsupported construct / tool limit): never an alarm. For functions the verifier cannot reach on a changed tree (degraded) a bounded stand-in runs: Kani harnesses where they exist and the concrete oracle sweeps of replay/drivers/vp_replay.rs; they can only refute, are labelled bounded and are never counted as discharged. See DESIGN.md section 13.',
 }
 missing = [p for p in all_ids if p not in props and p not in na]
 assert not missing, missing
